@@ -40,7 +40,7 @@ CONSTANTS Mode,      \* "pkg" | "inv"
           MaxDev,    \* a package deviates from the plain package in at most MaxDev dimensions
           MaxPkgs,   \* "inv": inventory length bound
           Formats,   \* "inv": export formats
-          NoPurlKinds \* "inv": kinds of packages without a package URL: subset of {"none", "cpe"}
+          SpecialKinds \* "inv": special plain packages: subset of {"none" (no URL, no CPE), "cpe" (CPE only), "both" (URL and CPE)}
 
 -----------------------------------------------------------------------------
 (* ---- class tables: one concrete representative per class ---- *)
@@ -160,12 +160,12 @@ SetDim(p, i, x) == CASE i = 1 -> [p EXCEPT !.type = x]
                      [] i = 8 -> [p EXCEPT !.layer = x]
 \* a type that needs a namespace gets one: its "plain" representative is the package with nsC = "plain"
 Fix(p) == IF p.type \in NeedsNs /\ p.nsC = "none" THEN [p EXCEPT !.nsC = "plain"] ELSE p
-NoPurl(k) == [Plain EXCEPT !.kind = k]
+Special(k) == [Plain EXCEPT !.kind = k]
 
 \* the package URL a package carries (concrete representative strings)
 Purl(p) == [type |-> p.type, ns |-> NsTab[p.nsC].raw, name |-> NameTab[p.nameC].raw, version |-> VerTab[p.verC],
             quals |-> QualTab[p.qualC].raw, subpath |-> SubTab[p.subC].raw]
-HasPurl(p) == p.kind = "purl"
+HasPurl(p) == p.kind \in {"purl", "both"}
 
 \* the normal form of that package URL
 Norm(p) == [type |-> p.type,
@@ -279,8 +279,8 @@ SBOM         == Step("proto", "sbom", "sbom", [spdx |-> IF Exported(pkg, "spdx23
 AddPkg       == /\ Mode = "inv" /\ stage = "build" /\ Len(inv) < MaxPkgs /\ TypeWellFormed(Fix(pkg))
                 /\ inv' = Append(inv, Fix(pkg)) /\ pkg' = Plain /\ last' = 0
                 /\ UNCHANGED <<stage, c, fmt, doc, file, back>>
-AddNoPurl(k) == /\ Mode = "inv" /\ stage = "build" /\ Len(inv) < MaxPkgs /\ last = 0
-                /\ inv' = Append(inv, NoPurl(k))
+AddSpecial(k) == /\ Mode = "inv" /\ stage = "build" /\ Len(inv) < MaxPkgs /\ last = 0
+                /\ inv' = Append(inv, Special(k))
                 /\ UNCHANGED <<stage, pkg, last, c, fmt, doc, file, back>>
 RECURSIVE ExportLoop(_, _, _)
 ExportLoop(rest, f, acc) ==
@@ -300,7 +300,7 @@ Scan         == /\ stage = "written" /\ back' = [i \in 1..Len(file) |-> Norm(fil
 
 Next == \/ (stage \in {"start", "build"} /\ \E i \in 1..8 : i > last /\ \E x \in DimVals(i) : Deviate(i, x))
         \/ Emit \/ ToPURL \/ String1 \/ FromString1 \/ String2 \/ FromString2 \/ Index \/ Proto \/ SBOM
-        \/ AddPkg \/ (\E k \in NoPurlKinds : AddNoPurl(k))
+        \/ AddPkg \/ (\E k \in SpecialKinds : AddSpecial(k))
         \/ (\E f \in Formats : Export(f))
         \/ WriteFile \/ Scan
 Spec == Init /\ [][Next]_vars
@@ -340,7 +340,7 @@ ExportIsFilter == (Mode = "inv" /\ stage # "build") =>
 PkgCase == [p |-> Purl(pkg), nameC |-> pkg.nameC, verC |-> pkg.verC, nsC |-> pkg.nsC, qualC |-> pkg.qualC, subC |-> pkg.subC,
             layer |-> pkg.layer, nloc |-> pkg.nloc, norm |-> Norm(pkg), spdx_exported |-> Exported(pkg, "spdx23-json")]
 InvPkg(p, i) == [carrier |-> IF i % 2 = 1 THEN "spdx" ELSE "cdx", has_purl |-> HasPurl(p), p |-> Purl(p), name |-> Purl(p).name, version |-> Purl(p).version,
-              cpe |-> IF p.kind = "cpe" THEN "cpe:2.3:a:acme:libfoo:1.0:*:*:*:*:*:*:*" ELSE "",
+              cpe |-> IF p.kind \in {"cpe", "both"} THEN "cpe:2.3:a:acme:libfoo:1.0:*:*:*:*:*:*:*" ELSE "",
               cls |-> [type |-> p.type, nameC |-> p.nameC, verC |-> p.verC, nsC |-> p.nsC, qualC |-> p.qualC, subC |-> p.subC, kind |-> p.kind]]
 InvCase == [format |-> fmt, pkgs |-> [i \in 1..Len(inv) |-> InvPkg(inv[i], i)], expect |-> ExpectedBack(inv, fmt)]
 EmitCase == /\ (TerminalPkg => PrintT(ToJson(PkgCase)))
